@@ -448,6 +448,35 @@ impl Ty {
         )
     }
 
+    /// Returns true if a value of this type is, or contains somewhere inside it, an address
+    /// (pointers, slices, strings, `any`, functions).
+    ///
+    /// Such a value only makes sense inside the process that computed it.
+    pub fn contains_pointer(&self) -> bool {
+        match self.absolute_ty() {
+            Ty::Pointer { .. }
+            | Ty::RawPtr { .. }
+            | Ty::Slice { .. }
+            | Ty::RawSlice
+            | Ty::String
+            | Ty::Any
+            | Ty::ConcreteFunction { .. }
+            | Ty::FunctionPointer { .. } => true,
+            Ty::AnonArray { sub_ty, .. }
+            | Ty::ConcreteArray { sub_ty, .. }
+            | Ty::Optional { sub_ty } => sub_ty.contains_pointer(),
+            Ty::AnonStruct { members } | Ty::ConcreteStruct { members, .. } => {
+                members.iter().any(|member| member.ty.contains_pointer())
+            }
+            Ty::Enum { variants, .. } => variants.iter().any(|variant| variant.contains_pointer()),
+            Ty::ErrorUnion {
+                error_ty,
+                payload_ty,
+            } => error_ty.contains_pointer() || payload_ty.contains_pointer(),
+            _ => false,
+        }
+    }
+
     pub fn is_struct(&self) -> bool {
         matches!(
             self.absolute_ty(),
